@@ -388,7 +388,8 @@ def run(ctx):
                 kind = "stall" if what.startswith("STALL") else ("panic" if what.startswith("panic") else
                                                                   ("stale-engine" if what.startswith("rule change after") else "no-wellformed-response"))
                 ctx.disagreement("gated:%s:%s" % (kind, r["family"]), {"family": r["family"], "round": r["round"], "bad": [b[:8000] for b in r["bad"]], "replies": r["replies"]},
-                                 ("refresh worker parked in a list download during a list operation: %s" % what) if r.get("round", 0) >= 1000
+                                 ("DHCP lease removed while a request that has looked it up is in flight: %s" % what) if r.get("round", 0) >= 2000
+                                 else ("refresh worker parked in a list download during a list operation: %s" % what) if r.get("round", 0) >= 1000
                                  else "request parked in Upstream during admin op %s: %s" % (r["family"], what))
         if not fams_bad:
             ctx.notes.append("gated failure not reproduced: %s" % sorted({r["family"] for r in gbad}))
@@ -407,7 +408,10 @@ def run(ctx):
     parked = sum(r.get("parked", 0) for r in grows)
     if parked == 0 and not ctx.violations:
         raise vlib.Inconclusive("gated driver never parked a request in the upstream")
-    wparked = [r for r in grows if r.get("round", 0) >= 1000]
+    wparked = [r for r in grows if 1000 <= r.get("round", 0) < 2000]
+    dparked = [r for r in grows if r.get("round", 0) >= 2000]
+    if (not dparked or not any(r.get("parked") for r in dparked)) and not ctx.violations:
+        raise vlib.Inconclusive("gated driver never removed a DHCP lease under a request in flight")
     if (not wparked or not any(r.get("parked") for r in wparked)) and not ctx.violations:
         raise vlib.Inconclusive("gated driver never parked the refresh worker in a list download")
     unrepro = [s["family"] for s in summaries if s.get("unreproduced_stall")]
@@ -437,6 +441,7 @@ def run(ctx):
         "lock_order": lo,
         "gated_interleavings": len(grows), "gated_requests_parked": parked,
         "gated_refresh_worker_parked": sum(1 for r in wparked if r.get("parked")),
+        "gated_lease_removed_mid_request": sum(1 for r in dparked if r.get("parked")),
         "unreproduced_stalls": unrepro,
         "conflict_pairs": fams[0]["pairs"], "spec_families": spec_fams,
         "samples": [summaries[0], summaries[-1]],
